@@ -403,7 +403,7 @@ pub fn run(tier: Tier) -> i32 {
     let mut rep = Report::new("C13", tier, "exploration");
     let dir = std::env::temp_dir().join(format!("ttv-c13-{}", std::process::id()));
     let _ = std::fs::create_dir_all(&dir);
-    let max_len = tier.pick(3u32, 4u32);
+    let max_len = tier.pick(3u32, 5u32);
     let n = count_strings(max_len);
     // (A) user = s_i, password = s_(n-1-i): every string appears once as a user name and once as a password
     let r = sweep_dyn(n * 4 * 2, 64, Duration::from_secs(1500), rt::workers(), |j| {
